@@ -85,6 +85,16 @@ def floor_offset(prog, t, acc, cls, depth=0):
         if decl.endswith(acc):
             return ("coord",)
         a = [floor_offset(prog, x, acc, cls, depth) for x in t[2]]
+        # a helper of this repository applied to the coordinate itself: interpret its MIR with x = floor(x) + frac (engine F),
+        # which follows branches; fall back to the term-level inlining below if that does not apply
+        if len(a) == 1 and a[0] == ("coord",):
+            for cand in (res, decl):
+                hb = prog.bodies.get(cand)
+                if hb is not None and hb.d.get("argc", 0) == 1:
+                    from . import floordom
+                    r = floordom.evaluate(prog, hb, cls, domain_bits=31)
+                    if r[0] in ("off", "bad"):
+                        return r
         # a floor written in this repository (the no-fp fallback, a wrapper around a back-end) is analysed, not trusted
         for cand in (res, decl):
             b = prog.bodies.get(cand)
